@@ -241,15 +241,12 @@ func checkSchlick(c schlickCase, o *kit.Obs) error {
 		s := Subject{Mat: mat, Mode: c.Mode, Normal: c.Normal, Fixed: fixed}
 		cosInc := math.Abs(c.Normal.Dot(fixed))
 		want := schlick(c.Index, cosInc)
-		// reference geometry
-		var travel kit.V3
+		// reference geometry: SampleDest(normal, source) is the construction of SampleSource seen from the other
+		// side of the surface (see lobesDest)
 		nn := c.Normal
 		if c.Mode == "dest" {
-			travel, nn = fixed, c.Normal.Scale(-1) // SampleDest: light along `fixed` meets the surface; see lobesDest
-		} else {
-			travel = fixed
+			nn = c.Normal.Scale(-1)
 		}
-		_ = travel
 		ls := s.build().lobes // [refract, mirror]
 		_, tir, mg := snell(nn, fixed.Scale(-1), c.Index)
 		if mg < 1e-9 {
